@@ -48,6 +48,15 @@ def run_check(prop, tier, seed, replay=None):
                 if ok:
                     print(f"replay: property {prop} holds on this case now")
                     return 0
+                for path, what in ctx.violations[:3]:
+                    print(f"# {what}")
+                if not ctx.violations and ctx.known_hits:
+                    # the case still fails, and it is one of the recorded findings
+                    for k in ctx.known:
+                        if k["id"] in ctx.known_hits:
+                            print(f"KNOWN-FINDING: property={prop} {k['what']}")
+                    print(f"replay: the case still fails as recorded in known_findings.json ({', '.join(ctx.known_hits)})")
+                    return 0
                 print(f"VIOLATION property={prop} replay={replay}")
                 return 1
 
